@@ -258,3 +258,22 @@ M("c05-cam-genloc", "C05", "flexstack/security/sign_service.py",
   "        if len(self.unknown_ats) > 0:\n            sigend_data_dict", "        sigend_data_dict[\"content\"][1][\"tbsData\"][\"headerInfo\"][\"generationLocation\"] = {\"latitude\": 0, \"longitude\": 0, \"elevation\": 0}\n        if len(self.unknown_ats) > 0:\n            sigend_data_dict", "CAM carries generationLocation")
 M("c05-no-notify", "C05", "flexstack/security/verify_service.py",
   "            if not authorization_ticket:\n                if self.sign_service is not None:\n                    self.sign_service.notify_unknown_at(signer[1])", "            if not authorization_ticket:\n                if False:\n                    self.sign_service.notify_unknown_at(signer[1])", "unknown digest does not trigger a certificate request")
+
+# ---------------------------------------------------------------- C04
+M("c04-guard-revert", "C04", "flexstack/geonet/router.py",
+  "        except Exception as e:  # pylint: disable=broad-exception-caught\n            # Truncated, corrupted or otherwise undecodable frame", "        except DADException as e:  # pylint: disable=broad-exception-caught\n            # Truncated, corrupted or otherwise undecodable frame", "router guard catches only DADException again")
+M("c04-both-revert", "C04", "flexstack/geonet/router.py",
+  "        except Exception as e:  # pylint: disable=broad-exception-caught\n            # Truncated, corrupted or otherwise undecodable frame", "        except DecodeError as e:  # pylint: disable=broad-exception-caught\n            # Truncated, corrupted or otherwise undecodable frame", "router guard catches only DecodeError")
+M("c04-own-mac", "C04", "flexstack/linklayer/raw_link_layer.py",
+  "                        and m[6:12] != self.mac_address\n", "", "own broadcast frames are processed")
+M("c04-foreign-unicast", "C04", "flexstack/linklayer/raw_link_layer.py",
+  "                    if m[0:6] == self.mac_address:\n                        self.receive_callback(m[14:])", "                    if m[0:6] != b\"\\xff\\xff\\xff\\xff\\xff\\xff\":\n                        self.receive_callback(m[14:])", "frames addressed to any unicast MAC are processed")
+M("c04-rhl-check", "C04", "flexstack/geonet/router.py",
+  "        if basic_header.rhl > common_header.mhl:\n            raise DecapError(\"Hop limit exceeded\")\n", "", "RHL > MHL frames are processed")
+M("c04-shb-len-revert", "C04", "flexstack/geonet/router.py",
+  "            if len(packet) < 28:\n                raise DecodeError(\n                    f\"SHB Extended Header too short: expected 28 bytes, got {len(packet)}\")\n", "", "revert: truncated SHB processed")
+M("c04-version", "C04", "flexstack/geonet/router.py",
+  "        if basic_header.version != self.mib.itsGnProtocolVersion:\n            raise NotImplementedError(\"Version not implemented\")\n", "", "protocol version not checked")
+M("c04-learn-early", "C04", "flexstack/security/certificate_library.py",
+  "                # The ticket is remembered by the caller once the message it signed has\n                # verified: a frame with a bad signature must leave no trace in the store.\n                return temp_certificate",
+  "                self.add_authorization_ticket(temp_certificate)\n                return temp_certificate", "revert: ticket learnt before the message verifies")
